@@ -389,6 +389,8 @@ class Body:
                         adt = self.facts.adts.get(rv.get('adt'))
                         if adt:
                             by_discr = {v.get('discr', v['idx']): v['name'] for v in adt['variants']}
+                        elif rv.get('variants'):
+                            by_discr = {v['discr']: v['name'] for v in rv['variants']}
                         else:
                             by_discr = self.facts.ext_enum(rv.get('adt'))
                         vt = {}
